@@ -211,10 +211,16 @@ pub fn monitored_call(
     bits.resize(len, 0);
     fill_content(&mut rng, content, d0);
     fill_content(&mut rng, content / 6 + content, s0);
-    for b in bits.iter_mut() {
+    // packed-bit operand: all zero / all one / sparse (about one bit per 64-bit word, so that neighbouring
+    // words rarely share a bit position) / complementary neighbouring words (word w holds the bit positions
+    // of parity w: every pair of adjacent words is non-zero and has no common set bit) / dense random
+    let pad = (64 - len % 64) % 64;
+    for (k, b) in bits.iter_mut().enumerate() {
         *b = match content % 6 {
             2 => 0,
             3 => 1,
+            4 => (rng.below(48) == 0) as u8,
+            5 => (((k + pad) % 64) % 2 == ((k + pad) / 64) % 2) as u8,
             _ => (rng.next() & 1) as u8,
         };
     }
